@@ -225,8 +225,14 @@ func (v *Verifier) external(st *State, in *ssa.Call, fn *ssa.Function, args []*T
 				return set(IntLit(0), e)
 			}
 		}
-		ok := App("parse_uint_ok", SBool, s)
-		val := App("parse_uint_val", SInt, s)
+		// the decimal 64-bit reading is a function of the text (named in the specification prelude); any other
+		// base or width is a different function of the text, the base and the width
+		ok := App("parse_uint_ok", SBool, s, args[1], args[2])
+		val := App("parse_uint_val", SInt, s, args[1], args[2])
+		if args[1].IsInt() && args[1].Int64() == 10 && args[2].IsInt() && args[2].Int64() == 64 {
+			ok = App("parse10_ok", SBool, s)
+			val = App("parse10_val", SInt, s)
+		}
 		st.assume(Implies(ok, And(Ge(val, IntLit(0)), Lt(val, IntBig(pow2(64))))))
 		e := freshError(st, "parseuint_err")
 		errLeaf[e] = true
